@@ -97,7 +97,7 @@ def pc_string(lit):
             if 0xD800 <= cp <= 0xDBFF and lit[j:j + 2] == b"\\u" and j + 6 <= end and all(ch in HEX for ch in lit[j + 2:j + 6]):
                 lo = int(lit[j + 2:j + 6], 16)
                 if 0xDC00 <= lo <= 0xDFFF:
-                    cp = 0x10000 + ((cp - 0xD800) << 10) + (lo - 0xDC00); j += 6
+                    cp = 0x10000 + ((cp - 0xD800) << 10) + (lo - 0xDC00); j += 6; feats.add("surrogate")
             if 0xD800 <= cp <= 0xDFFF: feats.add("surrogate")
             out += utf8(cp); i = j
         elif e == ord('U'):
